@@ -231,6 +231,9 @@ def guessFormat (name : List Char) : Option String :=
 /-- choices of `--format` (argparse) -/
 def formatChoices : List String := ["auto", "geojson", "wkt", "wkb", "shapefile"]
 
+/-- choices of `--missing-points` of `extract-points` (argparse); the default is the first -/
+def missingPointPolicies : List String := ["error", "drop", "fill"]
+
 inductive FormatResult
   | writer (fmt : String)       -- the writer registered under this name is called
   | usage                       -- argparse rejects the option value: exit status 2
